@@ -435,23 +435,41 @@ def run_header(ctx) -> RuleResult:
         if isinstance(node, ast.Assign) and len(node.targets) == 1 and isinstance(node.targets[0], ast.Name) \
                 and node.targets[0].id == "header" and not isinstance(node.value, ast.Name):
             n_header += 1
-            value = node.value
-            first = None
-            if isinstance(value, ast.BinOp) and isinstance(value.op, ast.Add):
-                cur = value
-                while isinstance(cur, ast.BinOp) and isinstance(cur.op, ast.Add):
-                    cur = cur.left
-                first = cur
-            elif isinstance(value, ast.Call) and isinstance(value.func, ast.Attribute) and value.func.attr == "join" and value.args \
-                    and isinstance(value.args[0], (ast.List, ast.Tuple)) and value.args[0].elts:
-                first = value.args[0].elts[0]
-            elif isinstance(value, ast.JoinedStr) and value.values and isinstance(value.values[0], ast.FormattedValue):
-                first = value.values[0].value
-            ok = first is not None and isinstance(first, ast.Name) and first.id != "header"
-            result.ob("savetxt puts the numpoly line before a user header", ok, smod.loc(node), U(value)[:80])
+
+            def first_piece(value):
+                """First text piece of a combined header; 'plain' for a bare name; None if unrecognised."""
+                if isinstance(value, ast.Name):
+                    return "plain"
+                if isinstance(value, ast.IfExp):
+                    a, b = first_piece(value.body), first_piece(value.orelse)
+                    if a is None or b is None:
+                        return None
+                    combos = [x for x in (a, b) if x != "plain"]
+                    return combos[0] if combos else "plain"
+                if isinstance(value, ast.BinOp) and isinstance(value.op, ast.Add):
+                    cur = value
+                    while isinstance(cur, ast.BinOp) and isinstance(cur.op, ast.Add):
+                        cur = cur.left
+                    return cur if isinstance(cur, ast.Name) else None
+                if isinstance(value, ast.Call) and isinstance(value.func, ast.Attribute) and value.func.attr == "join" and value.args \
+                        and isinstance(value.args[0], (ast.List, ast.Tuple)) and value.args[0].elts:
+                    elt = value.args[0].elts[0]
+                    return elt if isinstance(elt, ast.Name) else None
+                if isinstance(value, ast.JoinedStr) and value.values and isinstance(value.values[0], ast.FormattedValue):
+                    elt = value.values[0].value
+                    return elt if isinstance(elt, ast.Name) else None
+                return None
+
+            first = first_piece(node.value)
+            if first is None:
+                raise AnalysisError(f"savetxt: unrecognised header combination {U(node.value)[:80]}")
+            if first == "plain":
+                continue
+            ok = first.id != "header"
+            result.ob("savetxt puts the numpoly line before a user header", ok, smod.loc(node), U(node.value)[:80])
             if not ok:
                 result.add(Finding("R-HEADER", smod, "savetxt", node,
-                                   f"the combined header is {U(value)[:80]}: the user's header comes first, but loadtxt "
+                                   f"the combined header is {U(node.value)[:80]}: the user's header comes first, but loadtxt "
                                    f"recognises a numpoly file only by its first line"))
     # writer flattens elements x terms
     ok = False
